@@ -8,6 +8,7 @@ package imports
 
 import (
 	"bufio"
+	"bytes"
 	"errors"
 	"io"
 	"unicode/utf8"
@@ -25,6 +26,8 @@ type importReader struct {
 func isIdent(c byte) bool {
 	return 'A' <= c && c <= 'Z' || 'a' <= c && c <= 'z' || '0' <= c && c <= '9' || c == '_' || c >= utf8.RuneSelf
 }
+
+var bom = []byte{0xef, 0xbb, 0xbf}
 
 var (
 	errSyntax = errors.New("syntax error")
@@ -214,6 +217,13 @@ func ReadComments(f io.Reader) ([]byte, error) {
 // and stops reading the input once the imports have completed.
 func ReadImports(f io.Reader, reportSyntaxError bool, imports *[]string) ([]byte, error) {
 	r := &importReader{b: bufio.NewReader(f)}
+	// Remove leading UTF-8 BOM, as go/build and go/parser do.
+	// Per https://golang.org/ref/spec#Source_code_representation:
+	// a compiler may ignore a UTF-8-encoded byte order mark (U+FEFF)
+	// if it is the first Unicode code point in the source text.
+	if leadingBytes, err := r.b.Peek(3); err == nil && bytes.Equal(leadingBytes, bom) {
+		r.b.Discard(3)
+	}
 
 	r.readKeyword("package")
 	r.readIdent()
